@@ -381,4 +381,7 @@ def classes : List ClassInfo := [
 /-- object class name ↦ index of its style class in `classes` -/
 def objectClasses : List (String × Nat) := [("Cuboid", 1), ("Sensor", 2), ("Circle", 3), ("Dipole", 4), ("Triangle", 5), ("Collection", 6), ("CustomSource", 6), ("TriangularMesh", 7)]
 
+/-- object class name ↦ its style families, in the order `get_families` (magpylib/_src/style.py) returns them (probed on an instance) -/
+def families : List (String × List Str) := [("Cuboid", ["magnet".toList, "cuboid".toList]), ("Sensor", ["sensor".toList]), ("Circle", ["current".toList, "circle".toList]), ("Dipole", ["dipole".toList]), ("Triangle", ["magnet".toList, "triangle".toList]), ("Collection", []), ("CustomSource", ["customsource".toList]), ("TriangularMesh", ["magnet".toList, "triangularmesh".toList])]
+
 end MagpyVerif.Gen.StyleSchema
